@@ -35,6 +35,8 @@ where
         // Map each image through the isogeny first and add on the target curve.
         let mut p = PtT::osswu_map(p1);
         p.isogeny_map();
+        #[cfg(pairing_plus_verif)]
+        ::verif_hooks::point(31);
         let mut q = PtT::osswu_map(p2);
         q.isogeny_map();
         p.add_assign(&q);
